@@ -1,5 +1,6 @@
 import GN.Require.ResolveLemmas
 import GN.Require.Eval
+import GN.Generated.Misc
 
 /-! # C02 — require() selects the file the Node.js CommonJS resolution algorithm selects -/
 
@@ -94,5 +95,13 @@ example :
       else if p == "/app/p/sub/index.js" then .file 4 else if p == "/app/p/index.js" then .file 5 else .missing
     specSelect probe (fodCands env "/app/x") = .found 1 ∧ specSelect probe (fodCands env "/app/p") = .found 4 := by
   decide +kernel
+
+/-- **the candidate names are the ones in require/resolve.go now** (string literals of loadAsFile, loadIndex,
+loadAsDirectory, loadNodeModules re-extracted on every run, in source order): `.js` before `.json`, `index.js` before
+`index.json`, `package.json`, `node_modules` — the constants the candidate-order theorems above are stated with -/
+theorem resolve_literals_match :
+    Generated.resolveLiterals =
+      [("loadAsFile", [".js", ".json"]), ("loadIndex", ["index.js", "index.json"]),
+       ("loadAsDirectory", ["package.json"]), ("loadNodeModules", ["node_modules", "node_modules", ".."])] := by decide
 
 end GN.Props.C02
